@@ -148,4 +148,148 @@ def reuseTrace : List Label :=
    .clear, .collect 68 0, .dispatch (some 0),
    .clear, .collect 69 0]
 
+/-! ## `paramPool` / `paramListPool` (`csiDispatch`, `Finish(CSI)`)
+
+    csi.Parameters = p.paramListPool.Get()[:0]          -- begin
+    param := p.paramPool.Get()[:0]                      -- get
+    for … { case ';': param = append(param, ps)         -- app
+                      csi.Parameters = append(csi.Parameters, param)   -- push
+                      param = p.paramPool.Get()[:0]     -- get
+            case ':': param = append(param, ps) … }     -- app
+    param = append(param, ps)                           -- app
+    csi.Parameters = append(csi.Parameters, param)      -- push
+    p.emit(csi)                                         -- emit
+
+    Finish: for _, param := range seq.Parameters { p.paramPool.Put(param) }
+            p.paramListPool.Put(seq.Parameters)
+
+`csi.Parameters` is a slice of slices: the cells of a `[][]int` array are slice *headers* over
+`[]int` arrays, so two heaps.  The parser goroutine runs `csiDispatch` while the consumer goroutine
+may call `Finish` on sequences it holds, so the `Get`s of one dispatch are separate steps which
+interleave with `finish` steps.  `Finish` itself is one step: its `Put`s only make more arrays
+available to `Get` and it only reads cells of the list array it has not yet `Put`, so performing all
+of them at the moment of the first one only adds behaviours. -/
+
+/-- A delivered CSI's `Parameters`; `snap` is a ghost field: the parameter values read through the
+    slice at the moment of delivery. -/
+structure PDeliv where
+  l : Slice
+  snap : List (List Nat)
+  deriving DecidableEq, Repr, Inhabited
+
+structure PSt where
+  /-- `[]int` arrays -/
+  pheap : List (List Nat) := []
+  /-- `[][]int` arrays: cells are slice headers over `pheap` -/
+  lheap : List (List Slice) := []
+  /-- `paramPool` (slices with the length they were `Put` with) -/
+  ppool : List Slice := []
+  /-- `paramListPool` -/
+  lpool : List Slice := []
+  /-- locals of a running `csiDispatch`: `csi.Parameters` and `param` (`none` once it has been
+      appended to the list and before the next `Get`) -/
+  work : Option (Slice × Option Slice) := none
+  delivered : List PDeliv := []
+  deriving DecidableEq, Repr, Inhabited
+
+def PSt.init : PSt := {}
+
+/-- The headers seen through a `[][]int` slice. -/
+def hdrs (lh : List (List Slice)) (l : Slice) : List Slice := (cells lh l.arr).take l.len
+
+/-- The values seen through a `[][]int` slice. -/
+def readParams (ph : List (List Nat)) (lh : List (List Slice)) (l : Slice) : List (List Nat) :=
+  (hdrs lh l).map fun h => (cells ph h.arr).take h.len
+
+inductive PLabel
+  /-- `csi.Parameters = paramListPool.Get()[:0]` (pooled slice number `gl`, or a new `make([][]int, 0, 4)`) -/
+  | begin (gl : Option Nat)
+  /-- `param = paramPool.Get()[:0]` (pooled slice number `gp`, or a new `make([]int, 0, 6)`) -/
+  | get (gp : Option Nat)
+  /-- `param = append(param, v)` (`newcap`: capacity picked if it has to grow) -/
+  | app (v newcap : Nat)
+  /-- `csi.Parameters = append(csi.Parameters, param)` -/
+  | push (newcap : Nat)
+  /-- `p.emit(csi)` (all params pushed) -/
+  | emit
+  /-- the consumer calls `Finish` on delivered CSI number `k` -/
+  | finish (k : Nat)
+  deriving DecidableEq, Repr, Inhabited
+
+def pstep (s : PSt) : PLabel → Option PSt
+  | .begin gl =>
+    match s.work with
+    | some _ => none
+    | none =>
+      match gl with
+      | none =>
+        some { s with lheap := s.lheap ++ [List.replicate 4 default], work := some (⟨s.lheap.length, 0⟩, none) }
+      | some k =>
+        match s.lpool[k]? with
+        | none => none
+        | some l => some { s with lpool := s.lpool.eraseIdx k, work := some (⟨l.arr, 0⟩, none) }
+  | .get gp =>
+    match s.work with
+    | some (l, none) =>
+      match gp with
+      | none =>
+        some { s with pheap := s.pheap ++ [List.replicate 6 0], work := some (l, some ⟨s.pheap.length, 0⟩) }
+      | some k =>
+        match s.ppool[k]? with
+        | none => none
+        | some p => some { s with ppool := s.ppool.eraseIdx k, work := some (l, some ⟨p.arr, 0⟩) }
+    | _ => none
+  | .app v newcap =>
+    match s.work with
+    | some (l, some p) =>
+      if p.len < (cells s.pheap p.arr).length then
+        some { s with pheap := write s.pheap p.arr p.len v, work := some (l, some ⟨p.arr, p.len + 1⟩) }
+      else if p.len + 1 ≤ newcap then
+        some { s with pheap := s.pheap ++ [grow (cells s.pheap p.arr) p.len v newcap],
+                      work := some (l, some ⟨s.pheap.length, p.len + 1⟩) }
+      else none
+    | _ => none
+  | .push newcap =>
+    match s.work with
+    | some (l, some p) =>
+      if l.len < (cells s.lheap l.arr).length then
+        some { s with lheap := write s.lheap l.arr l.len p, work := some (⟨l.arr, l.len + 1⟩, none) }
+      else if l.len + 1 ≤ newcap then
+        some { s with lheap := s.lheap ++ [grow (cells s.lheap l.arr) l.len p newcap],
+                      work := some (⟨s.lheap.length, l.len + 1⟩, none) }
+      else none
+    | _ => none
+  | .emit =>
+    match s.work with
+    | some (l, none) =>
+      if l.len = 0 then none else
+      some { s with work := none, delivered := ⟨l, readParams s.pheap s.lheap l⟩ :: s.delivered }
+    | _ => none
+  | .finish k =>
+    match s.delivered[k]? with
+    | none => none
+    | some d =>
+      some { s with ppool := hdrs s.lheap d.l ++ s.ppool, lpool := d.l :: s.lpool,
+                    delivered := s.delivered.eraseIdx k }
+
+def prun : PSt → List PLabel → Option PSt
+  | s, [] => some s
+  | s, l :: ls =>
+    match pstep s l with
+    | none => none
+    | some s' => prun s' ls
+
+/-- What a consumer holding `d` reads now. -/
+def PDeliv.now (s : PSt) (d : PDeliv) : List (List Nat) := readParams s.pheap s.lheap d.l
+
+def pAllIntact (s : PSt) : Bool := s.delivered.all fun d => d.now s == d.snap
+
+/-- `CSI 1;2:3 m` then `CSI 4 m`, `Finish` of the first, `CSI 5;6 m` reusing its list and both of its
+    parameter arrays. -/
+def pReuseTrace : List PLabel :=
+  [.begin none, .get none, .app 1 0, .push 0, .get none, .app 2 0, .app 3 0, .push 0, .emit,
+   .begin none, .get none, .app 4 0, .push 0, .emit,
+   .finish 1,
+   .begin (some 0), .get (some 0), .app 5 0, .push 0, .get (some 0), .app 6 0, .push 0, .emit]
+
 end VaxisModel.Model.ParserPools
